@@ -473,3 +473,104 @@ Proof.
   - unfold Qdiv. ring.
   - rewrite nth_map0 by lia. unfold Qdiv. ring.
 Qed.
+
+(* ---------------------------------------------------------------------------------------------- *)
+(* positive homogeneity of degree 1 *)
+Lemma scan_scale f k : (forall h, f (map (Qmult k) h) == k * f h) -> forall x h0,
+  leq (scan f (map (Qmult k) h0) (map (Qmult k) x)) (map (Qmult k) (scan f h0 x)).
+Proof.
+  intros Hf x; induction x as [|a x IH]; intros h0; cbn [scan map]; constructor.
+  - apply (Hf (a :: h0)).
+  - apply (IH (a :: h0)).
+Qed.
+Lemma fir_scale alpha n k x :
+  leq (lowpass_fir alpha n (map (Qmult k) x)) (map (Qmult k) (lowpass_fir alpha n x)).
+Proof.
+  rewrite !fir_as_scan. apply (scan_scale (firF alpha n) k) with (h0 := []).
+  intros h. rewrite !firF_spec, hsumn_scale. ring.
+Qed.
+Lemma diffq_scale c l : leq (diffq (map (Qmult c) l)) (map (Qmult c) (diffq l)).
+Proof.
+  induction l as [|a l IH]; [constructor|]. destruct l as [|b l]; [constructor|].
+  change (diffq (map (Qmult c) (a :: b :: l))) with ((c * b - c * a) :: diffq (map (Qmult c) (b :: l))).
+  change (diffq (a :: b :: l)) with ((b - a) :: diffq (b :: l)). cbn [map].
+  constructor; [ring|exact IH].
+Qed.
+Lemma map_map_comm (f g f' g' : Q -> Q) l :
+  (forall a, f (g a) == g' (f' a)) -> leq (map f (map g l)) (map g' (map f' l)).
+Proof. intros H. rewrite !map_map. apply leq_map_ext. exact H. Qed.
+Lemma scale_zeros c n : leq (zeros n) (map (Qmult c) (zeros n)).
+Proof. symmetry. apply map_zeros. ring. Qed.
+
+Lemma slew_scale dt gamma p1 p2 c g :
+  leq (dgdt dt (pad p1 p2 (to_tesla gamma (map (Qmult c) g))))
+      (map (Qmult c) (dgdt dt (pad p1 p2 (to_tesla gamma g)))).
+Proof.
+  unfold dgdt.
+  assert (P : leq (pad p1 p2 (to_tesla gamma (map (Qmult c) g)))
+                  (map (Qmult c) (pad p1 p2 (to_tesla gamma g)))).
+  { unfold pad, to_tesla. rewrite !map_app. apply leq_app; [apply scale_zeros|].
+    apply leq_app; [|apply scale_zeros].
+    apply map_map_comm. intros a. unfold Qdiv. ring. }
+  etransitivity; [apply leq_map with (g := fun d => d / dt); [intros a b E; rewrite E; reflexivity|]|].
+  - etransitivity; [apply diffq_leq, P|apply diffq_scale].
+  - apply map_map_comm. intros a. unfold Qdiv. ring.
+Qed.
+
+Definition has_abs (b : branch) : Prop := b_abs_in b || b_abs_out b = true.
+
+Lemma abs_scale c l : leq (map Qabs (map (Qmult c) l)) (map (Qmult (Qabs c)) (map Qabs l)).
+Proof. apply map_map_comm. intros a. apply Qabs_Qmult. Qed.
+
+Lemma branch_scale h dtms b n c X X' : has_abs b -> leq X' (map (Qmult c) X) ->
+  leq (branch_out lowpass_fir h dtms b n X') (map (Qmult (Qabs c)) (branch_out lowpass_fir h dtms b n X)).
+Proof.
+  intros Hb HX. unfold branch_out, has_abs in *.
+  set (alpha := alpha_of dtms (hw_tau h (b_tau b))). set (w := hw_a h (b_weight b)).
+  assert (KK : Qabs (Qabs c) == Qabs c) by (apply Qabs_pos, Qabs_nonneg).
+  etransitivity; [|apply map_map_comm with (f := Qmult w) (g := Qmult (Qabs c)); intros a; ring].
+  apply Qmult_leq.
+  destruct (b_abs_in b); cbn [orb] in Hb.
+  - assert (I : leq (lowpass_fir alpha n (map Qabs X')) (map (Qmult (Qabs c)) (lowpass_fir alpha n (map Qabs X)))).
+    { etransitivity; [apply fir_leq|apply fir_scale].
+      etransitivity; [apply abs_leq, HX|apply abs_scale]. }
+    destruct (b_abs_out b).
+    + etransitivity; [apply abs_leq, I|]. etransitivity; [apply abs_scale|].
+      apply leq_map_ext. intros a. rewrite KK. reflexivity.
+    + exact I.
+  - rewrite Hb.
+    etransitivity; [apply abs_leq; etransitivity; [apply fir_leq, HX|apply fir_scale]|]. apply abs_scale.
+Qed.
+
+Lemma map_ladd k l1 l2 : leq (ladd (map (Qmult k) l1) (map (Qmult k) l2)) (map (Qmult k) (ladd l1 l2)).
+Proof.
+  unfold ladd. revert l2; induction l1 as [|a l1 IH]; intros [|b l2]; cbn [map zipw]; constructor; [ring|apply IH].
+Qed.
+
+Lemma stim_sum_scale h dtms c bs : Forall has_abs bs -> forall taps X X', leq X' (map (Qmult c) X) ->
+  leq (stim_sum lowpass_fir h dtms bs taps X') (map (Qmult (Qabs c)) (stim_sum lowpass_fir h dtms bs taps X)).
+Proof.
+  induction 1 as [|b bs Hb Hbs IH]; intros taps X X' HX; cbn [stim_sum].
+  - apply leq_length in HX. rewrite HX, map_length. apply scale_zeros.
+  - etransitivity; [|apply map_ladd]. unfold ladd. apply leq_zipw.
+    + intros a b0 c0 d E1 E2. rewrite E1, E2. reflexivity.
+    + apply branch_scale; assumption.
+    + apply IH; assumption.
+Qed.
+
+Lemma branches_have_abs : Forall has_abs branches.
+Proof. unfold branches, has_abs. repeat constructor. Qed.
+
+Lemma pns_homogeneous h gamma dt p1 p2 taps c g :
+  leq (pns_axis lowpass_fir h gamma dt p1 p2 taps (map (Qmult c) g))
+      (map (Qmult (Qabs c)) (pns_axis lowpass_fir h gamma dt p1 p2 taps g)).
+Proof.
+  unfold pns_axis, pns_model. rewrite map_length. rewrite !select_map.
+  set (m := rf_mask p1 (length g) p2).
+  pose proof (stim_sum_scale h (dt * ms_factor) c branches branches_have_abs taps _ _
+                (slew_scale dt gamma p1 p2 c g)) as S.
+  apply (leq_select m) in S. rewrite select_map in S.
+  etransitivity; [apply Qmult_leq; apply leq_map with (g := fun s => Qred (s / stim_limit h * g_scale h * pct));
+                  [intros a b E; rewrite E; reflexivity|exact S]|].
+  rewrite !map_map. apply leq_map_ext. intros a. rewrite !Qred_correct. unfold Qdiv. ring.
+Qed.
